@@ -83,12 +83,29 @@ def main():
         for l in open(outp):
             p = l.rstrip("\n").split("\t")
             if len(p) >= 3: done.add((p[0], p[1]))
+    # properties anchored in the same source files (a change seeded for one property may be
+    # the business of another one's check: e.g. the bounded queue under the thread pool)
+    anchors = {}
+    for l in open(os.path.join(ROOT, "properties.jsonl")):
+        d = json.loads(l)
+        anchors[d["id"]] = set(d.get("anchors", {}).get("files", []))
+    def related(patch, own):
+        touched = set(x[6:] for x in open(patch).read().splitlines() if x.startswith("+++ b/"))
+        return [p for p in sorted(anchors) if p != own and p in CHECKS and anchors[p] & touched]
+    def record(name, pid, v):
+        line = "\t".join([name, pid, v[0], v[1], str(v[2]), v[3], "%.0f" % v[4]])
+        print(line, flush=True)
+        with open(outp, "a") as o: o.write(line + "\n")
     for (name, pid, f) in items:
         if only and not (name.split(":")[1].startswith(only) or pid == only): continue
         if (name, pid) in done: continue
         v = run_one(f, pid, scale, tag)
-        line = "\t".join([name, pid, v[0], v[1], str(v[2]), v[3], "%.0f" % v[4]])
-        print(line, flush=True)
-        with open(outp, "a") as o: o.write(line + "\n")
+        record(name, pid, v)
+        if v[0] == "MISSED" and name.startswith("seeded:"):
+            for q in related(f, pid):
+                if (name, q) in done: continue
+                w = run_one(f, q, scale, tag)
+                record(name, q, w)
+                if w[0] == "caught": break
 
 main()
